@@ -1,3 +1,4 @@
+//go:build verif
 // +build verif
 
 package raft
@@ -8,10 +9,10 @@ package raft
 // connection sequence numbers.
 
 import (
-	"os"
 	"crypto/sha256"
 	"encoding/hex"
 	"fmt"
+	"os"
 	"sort"
 	"strings"
 )
